@@ -16,11 +16,11 @@ CHUNK = {"quick": 12, "thorough": 40}
 
 
 def bounds(tier):
-    return {"type_depth": DEPTH[tier], "types": len(T.terms(DEPTH[tier])), "objects": len(U.universe(tier))}
+    return {"type_depth": DEPTH[tier], "types": len(T.terms(DEPTH[tier], extra=True)), "objects": len(U.universe(tier))}
 
 
 def units(tier):
-    n = len(T.terms(DEPTH[tier]))
+    n = len(T.terms(DEPTH[tier], extra=True))
     c = CHUNK[tier]
     return [(tier, i, min(n, i + c)) for i in range(0, n, c)]
 
@@ -136,7 +136,7 @@ def _judge_pairs(res, tier, tsrcs, only_obj=None, base=0):
 def run_unit(unit):
     tier, lo, hi = unit
     res = UnitResult()
-    _judge_pairs(res, tier, T.terms(DEPTH[tier])[lo:hi], base=lo)
+    _judge_pairs(res, tier, T.terms(DEPTH[tier], extra=True)[lo:hi], base=lo)
     return res
 
 
